@@ -147,6 +147,9 @@ class ActionContext(abc.ABC):
         if self.location_action.condition is None or len(self.location_action.condition.strip()) == 0:
             return True
         result = self.trigger_context.evaluate_expression(self.location_action.condition)
+        if isinstance(result, BaseException):
+            # the condition could not be evaluated (we are given the error it raised), so it is not met
+            return False
         return str2bool(str(result))
 
 
